@@ -338,6 +338,8 @@ class C10(PropertyCheck):
         "QipVerif.C10.export_refuses",
         "QipVerif.C10.export_refuses_classical",
         "QipVerif.C10.definitions_sound",
+        "QipVerif.C10.export_den",
+        "QipVerif.C10.export_den_G",
         "QipVerif.C10.base_names_are_qelib1",
         "QipVerif.C10.export_measure_counterexample",
         "QipVerif.C10.export_exponent_counterexample",
@@ -345,7 +347,9 @@ class C10(PropertyCheck):
     level_text = ("Lean 4 theorems about a character-level model of the exporter, for every circuit (any size, any length) of "
                   "exportable gates with well-formed controls/targets/parameters: the emitted text is accepted line by line "
                   "by a strict OpenQASM 2.0 recogniser written from the language paper, passes the standard's static "
-                  "semantics, and denotes exactly the circuit's sequence of gate calls; every auxiliary gate definition the "
+                  "semantics, and denotes exactly the circuit's sequence of gate calls; its full expansion to U/CX has, on every "
+                  "register size, the circuit's unitary (denG / denX of the central embedding algebra) up to one global phase "
+                  "(export_den, by naturality of the expansion + localisation); every auxiliary gate definition the "
                   "exporter emits denotes the documented matrix up to one global phase (matrix identities over C); circuits "
                   "with a non-exportable gate are refused. Partial: measurements (exported without ';') and parameters "
                   "printed without a decimal point (1e-20) are excluded and proved to be counter-examples. The model is tied "
